@@ -70,7 +70,43 @@ REQUIRED_COUNTERS = (['w:' + w for w in WRAPPERS] + ['leaf:' + l for l in LEAVES
                         'unused_votes_2_rounds', 'unused_votes_3plus_rounds', 'unused_votes_prev_gains',
                         'unused_votes_depth2', 'unused_votes_in_multistage', 'unused_votes_in_preapportioned',
                         'unused_votes_later_stage_awards', 'unused_votes_3plus_later_stage_awards',
-                        'unused_votes_prev_gains_later_stage_awards', 'unused_votes_depth2_later_stage_awards'])
+                        'unused_votes_prev_gains_later_stage_awards', 'unused_votes_depth2_later_stage_awards',
+                        # generator audit (GENERATOR_CHECKLIST.md): candidate objects, clashes, numbers, seat values
+                        'names:int0', 'names:empty0', 'names:person', 'name_clash',
+                        'num:fraction_votes', 'num:fraction_votes_big_denominator', 'num:votes_1e18_or_more',
+                        'num:near_tie_at_magnitude', 'num:zero_vote_parties_2plus',
+                        'prev_gains_for_party_absent_from_votes',
+                        'seats:int_zero', 'seats:int_exceeds_candidates', 'seats:dict_zero', 'seats:dict_exceeds_candidates',
+                        'seats:app_int_zero', 'seats:app_int_exceeds_candidates', 'seats:app_dict_zero',
+                        'seats:app_dict_exceeds_candidates', 'seats:fixed_exceeds_candidates',
+                        'fixed_as_apportioner', 'fixed_as_preselector', 'fixed_as_district_evaluator',
+                        # the same wrapper object evaluated twice
+                        'state:same_object_twice', 'state:second_call_after_other_votes',
+                        'state:second_call_after_more_seats', 'state:second_call_after_failing_call',
+                        # per wrapper: cases on which the wrapper's own logic matters (tags from the hand composition)
+                        'sem:fixed:value',
+                        'sem:tb:tie_in_selection', 'sem:tb:tie_in_distribution', 'sem:tb:tie_2plus_seats',
+                        'sem:tb:tie_3plus_members', 'sem:tb:tie_resolved', 'sem:tb:tiebreaker_ties_again',
+                        'sem:tb:outer_resolves_what_inner_left',
+                        'sem:cond:eliminates_some_depth1', 'sem:cond:eliminates_some_depth2', 'sem:cond:eliminates_all',
+                        'sem:cond:eliminator_uses_prev_gains', 'sem:cond:no_seat_count_value',
+                        'sem:pre:vote_totals', 'sem:pre:inverted_simple', 'sem:pre:by_constituency', 'sem:pre:chain',
+                        'sem:post:sel_to_dist', 'sem:post:merged_distributions', 'sem:post:constituency_totals',
+                        'sem:post:party_totals', 'sem:post:by_constituency', 'sem:post:chain',
+                        'sem:bycon:2plus_evaluated', 'sem:bycon:zero_seat_next_to_evaluated', 'sem:bycon:none_evaluated',
+                        'sem:bycon:district_missing_from_apportionment', 'sem:bycon:preselector_eliminates',
+                        'sem:bycon:selector_inside', 'sem:bycon:apportioned_by_evaluator',
+                        'sem:bycon:prev_gains_per_district', 'sem:bycon:more_seats_than_candidates',
+                        'sem:preapp:value', 'sem:remapp:value', 'sem:remapp:2plus_constituencies',
+                        'sem:byparty:value', 'sem:byparty:2plus_parties_2plus_constituencies',
+                        'sem:byparty:overall_reused_as_allocator', 'sem:byparty:gains_columns',
+                        'sem:multi:2plus_stages_award', 'sem:multi:3plus_stages', 'sem:multi:a_stage_awards_nothing',
+                        'sem:multi:depth2_value', 'sem:multi:prev_gains_value', 'sem:multi:max_seats_value',
+                        'sem:multi:votes_per_stage', 'sem:unused:default_quota_functions',
+                        'sem:plist:closed_value', 'sem:plist:open_value', 'sem:plist:open_differs_from_closed',
+                        'sem:plist:more_seats_than_list_members', 'sem:plist:empty_list_of_a_seated_party',
+                        'sem:plist:2plus_parties']
+                     + ['value:' + w for w in WRAPPERS])
 
 NOT_VERIFIED = [
     'inspect.signature itself: the model hard-codes accepts_seats / accepts_prev_gains per class; the hard-coded '
@@ -1980,6 +2016,18 @@ def exhaustive_small(rng):
 
 
 def shrink_candidates(case):
+    for c in _shrink_candidates(case):
+        for key in ('_names', 'warm'):
+            if key in case:
+                c[key] = case[key]
+        yield c
+        if 'warm' in c:
+            c2 = dict(c)
+            del c2['warm']
+            yield c2
+
+
+def _shrink_candidates(case):
     t = case['tree']
     a = case['args']
     # replace the tree by a child
